@@ -303,7 +303,7 @@ func refSweep(r *Run, rule string, paths []Path, docs []docEntry, cfgs []sweepCf
 					stateSets[b][h] = struct{}{}
 					smu[b].Unlock()
 				}
-				if i%257 == 0 && di%37 == 5 {
+				if i%257 == 0 && di == (i/257)%len(docs) && cfg.String() == cfgs[(i/257)%len(cfgs)].String() {
 					r.Sample(map[string]any{"path": text, "doc": d.text, "cfg": cfg.String(), "outcome": st.outcome, "result": st.stateKey})
 				}
 			}
